@@ -1,0 +1,52 @@
+//go:build verif
+
+package upstream
+
+// Contracts for the verifier in /verif (comment-only; see /verif/DESIGN.md §3).
+
+// Selection among healthy servers, backups and health checking are implemented by the
+// dependency github.com/vicanso/upstream and are outside these contracts (C19).
+
+//@ typeinv upstreamServer(u) by NewUpstreamServer: u.Option != nil && u.Proxy != nil && u.HTTPUpstream != nil
+//@ immutable upstreamServer: servers, Proxy, HTTPUpstream, Option
+//@ typeinv upstreamServers(us) by NewUpstreamServers: us.m != nil
+//@ immutable upstreamServers: m
+//@ axiom [default-upstreams]: defaultUpstreamServers != nil
+//@ pred configuredUpstream(opts []UpstreamServerOption, name string) := exists i int :: 0 <= i && i < len(opts) && opts[i].Name == name
+
+// builds the pool from the option, runs one synchronous health check and starts the checker
+//@ func NewUpstreamServer(opt UpstreamServerOption) (u *upstreamServer)
+//@   trusted
+//@   nopanic
+//@   ensures [fresh] fresh(u)
+
+//@ func (u *upstreamServer) Destroy()
+//@   requires [recv] u != nil
+//@   nopanic
+
+//@ func (us *upstreamServers) Get(name string) (u *upstreamServer)
+//@   requires [recv] us != nil
+//@   nopanic
+//@   ensures [found] (us.m.dom[box(name)] && typeis(us.m.vals[box(name)], "*upstreamServer")) ==> box(u) == us.m.vals[box(name)]
+//@   ensures [absent] !us.m.dom[box(name)] ==> u == nil
+
+//@ func (us *upstreamServers) Reset$1(key string) (del bool)
+//@   requires [opts] opts != nil
+//@   effectfree
+//@   ensures [def] del <==> !configuredUpstream(deref(opts), key)
+//@   loop 0: invariant [idx]  -1 <= $idx && $idx < len(opts)
+//@   loop 0: invariant [none] forall k int :: 0 <= k && k <= $idx ==> opts[k].Name != key
+
+//@ func (us *upstreamServers) Reset(opts []UpstreamServerOption)
+//@   requires [recv] us != nil
+//@   modifies us.m.dom, us.m.vals
+//@   ensures [exact]   forall k any :: typeis(k, "string") ==> (us.m.dom[k] <==> configuredUpstream(opts, unbox(k, "string")))
+//@   ensures [rebuilt] forall j int :: 0 <= j && j < len(opts) ==> fresh(unbox(us.m.vals[box(opts[j].Name)], "*upstreamServer")) && unbox(us.m.vals[box(opts[j].Name)], "*upstreamServer") != nil
+//@   ensures [others]  forall k any :: !typeis(k, "string") ==> us.m.dom[k] == old(us.m.dom[k])
+//@   loop 0: modifies nothing
+//@   loop 0: invariant [idx]   -1 <= $idx && $idx < len(servers)
+//@   loop 1: modifies us.m.dom, us.m.vals
+//@   loop 1: invariant [idx]   -1 <= $idx && $idx < len(opts) && us.m != nil
+//@   loop 1: invariant [keep]  forall k any :: typeis(k, "string") && !configuredUpstream(opts, unbox(k, "string")) ==> !us.m.dom[k]
+//@   loop 1: invariant [added] forall j int :: 0 <= j && j <= $idx ==> us.m.dom[box(opts[j].Name)] && fresh(unbox(us.m.vals[box(opts[j].Name)], "*upstreamServer")) && unbox(us.m.vals[box(opts[j].Name)], "*upstreamServer") != nil
+//@   loop 1: invariant [others] forall k any :: !typeis(k, "string") ==> us.m.dom[k] == old(us.m.dom[k])
